@@ -190,6 +190,10 @@ struct Cmp {
     /// reconstruction errors of nalgebra's SVD of W.Phi for the two twins at the parameters
     /// in effect (diagnosis of the known third-party defect)
     svd_err: (f64, f64),
+    /// the truncation threshold is in play (a singular value at or below ~epsilon): the
+    /// truncated solution depends discontinuously on rounding, toleranced comparisons between
+    /// differently computed twins are meaningless there (bitwise ones are not affected)
+    trunc: bool,
 }
 
 impl Cmp {
@@ -236,6 +240,14 @@ fn close_vec<T: Sc>(a: &[T], b: &[T], rel: f64, scale: f64) -> Option<String> {
 /// refresh the gates and scales for the parameters now in effect
 fn refresh<T: Sc>(c: &mut Cmp, w: &World<T>, wb: &World<T>, params: &[T]) {
     c.kappa = kappa_of(w, params);
+    {
+        let a = M64::from_t(&refmath::phi_w::<T>(&w.spec, &w.x, w.w.as_ref(), params));
+        let eps = w.eps.map(|e| e.f().abs()).unwrap_or(2.0 * T::u());
+        c.trunc = match refmath::singular_values(&a) {
+            Some(sv) => sv.iter().any(|s| *s <= 4.0 * eps),
+            None => true,
+        };
+    }
     let ea = refmath::svd_reconstruction_error(&refmath::phi_w::<T>(&w.spec, &w.x, w.w.as_ref(), params)).unwrap_or(0.0);
     let pb = {
         // twin B's matrix: its model may carry the row scaling
@@ -378,6 +390,10 @@ fn cmp_state<T: Sc>(
         return;
     }
     c.bitwise = false;
+    if c.trunc {
+        rep.probe("gated_out_truncation_in_play");
+        return;
+    }
     // least-squares perturbation theory: errors grow like kappa (zero residual) up to
     // kappa^2 (large residual); compare only where that leaves a meaningful tolerance
     let rel = (64.0 * (n as f64 + 8.0) * T::u() + floor::<T>()) * c.kappa.max(1.0).powi(2);
@@ -484,6 +500,10 @@ fn cmp_jac<T: Sc>(
         return;
     }
     c.bitwise = false;
+    if c.trunc {
+        rep.probe("gated_out_truncation_in_play");
+        return;
+    }
     let rel = (256.0 * (n as f64 + 8.0) * T::u() + 4.0 * floor::<T>()) * c.kappa.max(1.0).powi(2);
     if !(rel < 5e-2) {
         rep.probe("gated_out_ill_conditioned");
@@ -550,6 +570,7 @@ fn exec_t<T: Sc, F: Factory<T>>(sc: &Scenario) -> RunReport {
         dw_scale: 0.0,
         cmax_last: 0.0,
         svd_err: (0.0, 0.0),
+        trunc: false,
     };
     let a0 = ra.world.alpha0.clone();
     refresh(&mut c, &ra.world, &rb.world, &a0);
